@@ -81,11 +81,6 @@ func NewConfig(cfg *telemetry.UploadConfig) *Config {
 			if r, ok := ucfg.stackrate[pgkey{p.Name, s.Name}]; !ok || s.Rate > r {
 				ucfg.stackrate[pgkey{p.Name, s.Name}] = s.Rate
 			}
-			if _, isCounter := ucfg.pgcounter[pgkey{p.Name, s.Name}]; !isCounter {
-				// Rate also answers for stacks, for existing callers; a counter
-				// of the same name keeps its own rate.
-				ucfg.rate[pgkey{p.Name, s.Name}] = ucfg.stackrate[pgkey{p.Name, s.Name}]
-			}
 		}
 	}
 	return &ucfg
@@ -124,7 +119,13 @@ func (r *Config) HasStack(program, stack string) bool {
 }
 
 func (r *Config) Rate(program, name string) float64 {
-	return r.rate[pgkey{program, name}]
+	k := pgkey{program, name}
+	if !r.pgcounter[k] {
+		// Rate also answers for stack counters, for existing callers; a
+		// counter of the same name has its own rate.
+		return r.stackrate[k]
+	}
+	return r.rate[k]
 }
 
 // StackRate returns the rate of the stack counter config with the given name.
